@@ -63,3 +63,13 @@ func (s *SortedSet) VerifDict() map[collections.Comparable]int64 {
 	}
 	return m
 }
+
+// VerifHeightOf returns the number of levels of the node holding ele (0 if there is none).
+func (s *SortedSet) VerifHeightOf(ele collections.Comparable) int {
+	for x := s.zsl.head.level[0].forward; x != nil; x = x.level[0].forward {
+		if x.Ele != nil && x.Ele.CompareTo(ele) == 0 {
+			return len(x.level)
+		}
+	}
+	return 0
+}
